@@ -5,6 +5,7 @@
 import CedarProofs.Prefix
 import CedarProofs.IncrPrefix
 import CedarProofs.TypedPrefix
+import CedarProofs.PrefixOld
 
 namespace Cedar.C02
 
@@ -318,5 +319,133 @@ example : Stream.deliverRestFuel 9 (({} : Stream).setKey 7 ⟨5, []⟩)
 example : (match ((({} : Stream).setKey 7 ivA).sendAll [([1], 0), ([2], 7), ([3], 1)]) with
     | .ok (_, fs) => Stream.deliverRestFuel 9 (({} : Stream).setKey 7 ⟨5, []⟩) fs
     | .error _ => []) = [[1, 2], [3]] := by decide
+
+/-! ### Replay across connections of one session
+
+A resumed connection is keyed with the SAME session key as the earlier connections of the session,
+so the adversary also holds every protected frame recorded on those (`old`, both directions).
+`AdvWire` excludes them by hypothesis. `AdvWireS` adds them; the two facts that make them harmless
+are stated as explicit session hypotheses (`OldConnections`), like `hsep`. -/
+
+/-- `AdvWire` plus the frames `old` recorded on earlier connections of the session -/
+def AdvWireS (k : Nat) (sent own old w : List WireFrame) : Prop :=
+  ∀ g ∈ w, match g.body with
+    | .raw _ => True
+    | .ct ivo c => (∀ i, ivo = some i → i.w0 < 2^32) ∧
+                   (c.key = k → (∃ f ∈ sent, ∃ ivo', f.body = .ct ivo' c) ∨
+                                (∃ f ∈ own, ∃ ivo', f.body = .ct ivo' c) ∨
+                                (∃ f ∈ old, ∃ ivo', f.body = .ct ivo' c))
+
+/-- Session hypotheses about the recorded frames, seen from the current receiver (sender base IV
+    `ivS`, expected first-frame digest pair `rdg`):
+    `iv_fresh` — every earlier connection used, in each direction, a base IV whose last 12 bytes
+    differ from the current sender's (independent `crypto/rand` draws per `SetSymmetricKey`);
+    `transcript_fresh` — an earlier connection's first frames were sealed over another cleartext
+    transcript (the resumption reply carries a fresh `ResumeNonce`; in the legacy no-reply mode this
+    FAILS: `C06.noreply_replay_fails`, known finding F-C06-noreply-replay). -/
+structure OldConnections (k : Nat) (ivS : IV) (rdg : Digest × Digest) (old : List WireFrame) : Prop where
+  iv_fresh : ∀ f ∈ old, ∀ ivo c, f.body = .ct ivo c → c.key = k → c.nonce.tail ≠ ivS.tail
+  transcript_fresh : ∀ f ∈ old, ∀ ivo c, f.body = .ct ivo c → c.key = k → c.aad.digests ≠ some rdg
+
+theorem advWireS_advFrameO {k iv ivR dg dgR rdg c0 cR items itemsR sent own old w}
+    (hsep : iv.tail ≠ ivR.tail)
+    (hsent : sent = framesFrom k iv dg c0 items) (hown : own = framesFrom k ivR dgR cR itemsR)
+    (hold : OldConnections k iv rdg old)
+    (h : AdvWireS k sent own old w) :
+    ∀ g ∈ w, AdvFrameO k iv dg ivR rdg c0 items g := by
+  intro g hg
+  have := h g hg
+  unfold AdvFrameO
+  cases hb : g.body with
+  | raw b => trivial
+  | ct ivo c =>
+    simp only [hb] at this ⊢
+    refine ⟨this.1, fun hk => ?_⟩
+    rcases this.2 hk with ⟨f, hf, ivo', hfb⟩ | ⟨f, hf, ivo', hfb⟩ | ⟨f, hf, ivo', hfb⟩
+    · left
+      rw [hsent] at hf
+      obtain ⟨j, it, hj, hfe⟩ := mem_framesFrom items c0 f hf
+      refine ⟨j, it, hj, ?_⟩
+      rw [hfe] at hfb
+      simp only [frameAt, Body.ct.injEq] at hfb
+      exact hfb.2.symm
+    · right; left
+      rw [hown] at hf
+      exact own_is_foreign hsep hf hfb
+    · right; right
+      exact ⟨hold.iv_fresh f hf ivo' c hfb hk, hold.transcript_fresh f hf ivo' c hfb hk⟩
+
+/-- **recv_prefix_resumed**: `recv_prefix` against the adversary that also replays, re-heads and
+    re-IVs frames recorded on EARLIER connections of the same session (same key): under the two
+    session hypotheses of `OldConnections`, `ReceiveCompleteMessage` still delivers only a prefix of
+    the messages sent on THIS connection. Not only the first frame (`C06.replay_rejected`): every
+    position of every message. -/
+theorem recv_prefix_resumed (S S' R R' : Stream) (k : Nat) (ivS ivR : IV) (ops opsR : List SendOp)
+    (sent own old w : List WireFrame) (hivS : ivS.w0 < 2^32) (hivR : ivR.w0 < 2^32)
+    (hsep : ivS.tail ≠ ivR.tail)
+    (hold : OldConnections k ivS (R.dig.fr, R.dig.fs) old)
+    (hsend : (S.setKey k ivS).sendAll ops = .ok (S', sent))
+    (hown : (R.setKey k ivR).sendAll opsR = .ok (R', own))
+    (hadv : AdvWireS k sent own old w) (n : Nat) :
+    Stream.deliverFuel n (R.setKey k ivR) w <+: messagesOf [] ops := by
+  obtain ⟨items, hsent, hops, hlim, _, _⟩ :=
+    sendAll_spec ops _ S' 0 sent (setKey_sendInv S k ivS) hsend
+  obtain ⟨itemsR, hownE, _, _, _, _⟩ :=
+    sendAll_spec opsR _ R' 0 own (setKey_sendInv R k ivR) hown
+  have hr : RecvInv (R.setKey k ivR) k ivS 0 0 :=
+    ⟨rfl, rfl, rfl, by simp [Stream.setKey], fun h => absurd rfl h⟩
+  have hd : ((R.setKey k ivR).dig.fr, (R.setKey k ivR).dig.fs) = (R.dig.fr, R.dig.fs) := by
+    simp [Stream.setKey, Dig.finalize, Dig.fs, Dig.fr]
+  have := deliver_prefixO (dg := (S.dig.fs, S.dig.fr)) (ownIV := ivR) (rdg := (R.dig.fr, R.dig.fs)) hivS hlim n
+    (R.setKey k ivR) w 0 (Nat.zero_le _) hr (fun _ => ⟨rfl, hivR, hd⟩)
+    (advWireS_advFrameO (dgR := (R.dig.fs, R.dig.fr)) hsep hsent hownE hold hadv)
+  simpa [hops] using this
+
+/-- the same for the typed layer's receive loop -/
+theorem recv_prefix_typed_resumed (S S' R R' : Stream) (k : Nat) (ivS ivR : IV) (ops opsR : List SendOp)
+    (sent own old w : List WireFrame) (hivS : ivS.w0 < 2^32) (hivR : ivR.w0 < 2^32)
+    (hsep : ivS.tail ≠ ivR.tail)
+    (hold : OldConnections k ivS (R.dig.fr, R.dig.fs) old)
+    (hsend : (S.setKey k ivS).sendAll ops = .ok (S', sent))
+    (hown : (R.setKey k ivR).sendAll opsR = .ok (R', own))
+    (hadv : AdvWireS k sent own old w) (n : Nat) :
+    Stream.deliverRestFuel n (R.setKey k ivR) w <+: messagesOfT [] ops := by
+  obtain ⟨items, hsent, hops, hlim, _, _⟩ :=
+    sendAll_spec ops _ S' 0 sent (setKey_sendInv S k ivS) hsend
+  obtain ⟨itemsR, hownE, _, _, _, _⟩ :=
+    sendAll_spec opsR _ R' 0 own (setKey_sendInv R k ivR) hown
+  have hr : RecvInv (R.setKey k ivR) k ivS 0 0 :=
+    ⟨rfl, rfl, rfl, by simp [Stream.setKey], fun h => absurd rfl h⟩
+  have hd : ((R.setKey k ivR).dig.fr, (R.setKey k ivR).dig.fs) = (R.dig.fr, R.dig.fs) := by
+    simp [Stream.setKey, Dig.finalize, Dig.fs, Dig.fr]
+  have := deliverRest_prefixO (dg := (S.dig.fs, S.dig.fr)) (ownIV := ivR) (rdg := (R.dig.fr, R.dig.fs)) hivS hlim n
+    (R.setKey k ivR) w 0 (Nat.zero_le _) hr (fun _ => ⟨rfl, hivR, hd⟩)
+    (advWireS_advFrameO (dgR := (R.dig.fs, R.dig.fr)) hsep hsent hownE hold hadv)
+  simpa [hops] using this
+
+/-- `AdvWire` is the special case with nothing recorded -/
+theorem advWire_advWireS {k sent own w} (h : AdvWire k sent own w) : AdvWireS k sent own [] w := by
+  intro g hg
+  have := h g hg
+  cases hb : g.body with
+  | raw b => trivial
+  | ct ivo c =>
+    simp only [hb] at this ⊢
+    exact ⟨this.1, fun hk => (this.2 hk).elim .inl (fun x => .inr (.inl x))⟩
+
+/-! Non-vacuity: an earlier connection of the session (key 7, another base IV, a one-byte cleartext
+    exchange, so other digests) whose recorded frames meet `OldConnections`; replayed in front of /
+    inside / behind the current connection's frames they are rejected and delivery stops there. -/
+def ivOld : IV := ⟨3, [9,9,9,9,9,9,9,9,9,9,9,9]⟩
+def oldSent : List WireFrame :=
+  match (((({} : Stream).feedRecv [1]).setKey 7 ivOld).sendAll [([5, 5], 1), ([6], 1)]) with
+  | .ok (_, fs) => fs
+  | .error _ => []
+example : oldSent.length = 2 ∧ oldSent.all (fun f => match f.body with
+    | .ct _ c => c.key == 7 && c.nonce.tail != ivA.tail && c.aad.digests != some (.zero, .zero)
+    | .raw _ => false) = true := by decide
+example : Stream.deliver (({} : Stream).setKey 7 ⟨5, []⟩) (demoSent ++ oldSent) = [[1,2,3], [], [9,9]] := by decide
+example : Stream.deliver (({} : Stream).setKey 7 ⟨5, []⟩) (oldSent ++ demoSent) = [] := by decide
+example : Stream.deliver (({} : Stream).setKey 7 ⟨5, []⟩) (demoSent.take 2 ++ oldSent.drop 1 ++ demoSent.drop 2) = [[1,2,3]] := by decide
 
 end Cedar.C02
